@@ -195,6 +195,12 @@ impl MScriptFile {
         Ok(())
     }
 
+    /// A class declaration registers its constructor here every time it is executed (a class declared inside a
+    /// function is declared once per call): the latest registration is the one in force.
+    pub fn replace_export(&self, name: String, var: PrimitiveFlagsPair) {
+        self.exports.borrow_mut().replace(name, var);
+    }
+
     pub fn get_export(&self, name: &str) -> Option<PrimitiveFlagsPair> {
         let exports = self.exports.borrow();
         exports.get(name)
